@@ -517,7 +517,9 @@ def obligations(prop, repo=REPO, rules=("frame", "purity", "clock")):
         obs.append(o)
     for fn in sorted(A.fns.values(), key=lambda f: f.key):
         if "frame" in rules:
+            is_algorithm = "items" in fn.params and list(fn.params)[:1] in (["binner"], ["algorithm"])     # the public signature (binner, numbins|binsize, items, options...)
             owned = [p for p in fn.params if p in ("items", "sums", "current_sums", "item_names") or
+                     (is_algorithm and p not in ("binner", "self", "bins", "algorithm", "kwargs")) or      # every option the caller hands in (weights, copies, ...) is the caller's
                      (p in ("bins", "bins1", "bins2") and fn.node.name in ("copy_bins", "sums", "numbins", "numitems", "all_combinations", "extract_output_from_binsarray",
                                                                              "extract_output_from_sums", "extract_output_from_sums_and_lists", "value_to_minimize", "lower_bound")) or
                      (p == "bins2" and fn.node.name == "combine_bins")]
